@@ -4,7 +4,7 @@ From Coq.Strings Require Import Byte.
 Import ListNotations.
 From GA.Base Require Import Bytes Case Align CorrBase.
 From GA.Gen Require Import Alpha.
-From GA.Model Require Import Container.
+From GA.Model Require Import Container Sites.
 
 Definition brows := list (bs * bs).
 Definition unrows (l : brows) : rows := map (fun r => (unbs (fst r), unbs (snd r))) l.
@@ -15,7 +15,8 @@ Inductive bop :=
 | BRename (m : list (bs * bs)) | BRenameLit (old new : bs) | BCleanNames | BTrimAuto (curid : Z)
 | BTrim (m : list (bs * bs)) (size : Z)
 | BSort | BShuffle (draws : list Z) | BFilterLength (mn mx : Z) | BClear | BClone
-| BSetChar (i j : Z) (c : byte) | BSample (nb : Z) (perm : list Z).
+| BSetChar (i j : Z) (c : byte) | BSample (nb : Z) (perm : list Z)
+| BConcat (calpha : Z) (c : brows).
 
 Definition to_cop (b : bop) : cop :=
   match b with
@@ -35,6 +36,7 @@ Definition to_cop (b : bop) : cop :=
   | BClone => OpClone
   | BSetChar i j c => OpSetChar i j c
   | BSample nb p => OpSample nb (map Z.to_nat p)
+  | BConcat calpha c => OpConcat calpha (unrows c)
   end.
 
 (* what the harness observed after an operation *)
@@ -106,7 +108,10 @@ Definition model_ok (c : case) : bool := run_model (c_universe c) (init_state c)
    The reference keeps no index: before every operation the index is recomputed
    from the list (first row of each name), so by-name access is "first row
    carrying the name" and nothing else can influence the result. *)
-Definition canon (st : cstate) : cstate := set_objs st (c_objs st) (reindex (c_objs st)).
+Definition canon (st : cstate) : cstate :=
+  let st1 := set_objs st (c_objs st) (reindex (c_objs st)) in
+  (* an alignment without rows has no length: it accepts a first row of any length *)
+  if c_kind st1 then match c_objs st1 with [] => set_len st1 (-1) | _ => st1 end else st1.
 
 Definition is_rename (b : bop) : bool :=
   match b with BIdent _ _ | BRename _ | BRenameLit _ _ | BCleanNames | BTrimAuto _ | BTrim _ _ => true | _ => false end.
@@ -119,6 +124,16 @@ Fixpoint run_spec (universe : list bs) (st : cstate) (renamed : bool) (steps : l
       let st' := canon st1 in
       let rows' := abs st' in
       let renamed' := renamed || is_rename b in
+      (* a failed concatenation: the property speaks of successful operations only; the error must be
+         reported, and the remainder of the history (none is generated) is not judged *)
+      if (match b with BConcat _ _ => negb ok | _ => false end) then o_err o else
+      (* a successful concatenation of uniquely named rows is the row-level definition (Model/Sites.v) *)
+      (match b with
+       | BConcat calpha cr =>
+           negb (nodup_names (names (abs st)) && nodup_names (names (unrows cr)) && rectangularb (unrows cr)) ||
+           (let '(rs, okc) := Sites.concat (c_alpha st) calpha (abs st) (unrows cr) in okc && rows_eqb rs rows')
+       | _ => true
+       end) &&
       (* the observed content is the reference's (length is judged when there is a row) *)
       obs_matches_spec (match rows' with [] => false | _ => true end) universe o st' ok &&
       (* every row of an alignment has the reported length *)
